@@ -703,6 +703,48 @@ def r16_pairing(idx, r):
     pairing_rule(idx, r, ["armi.reactor.composites", "armi.reactor.assemblies", "armi.reactor.cores", "armi.reactor.reactors", "armi.reactor.excoreStructure", "armi.reactor.spentFuelPool"], 100)
 
 
+EXACT_NAMES = ("exact", "exactMatch")
+
+
+def r17_exactness_and_type_names(idx, r):
+    """(a) a query method of the composite model that takes an `exact` / `exactMatch` option and answers through another method that has that
+    option hands it on: otherwise `exact=True` silently becomes the default and objects with additional flags are returned too.
+    (b) iterChildrenOfType selects by the type NAME (`getType() == typeName`): flags are a lossy image of the name ("fuel" and "fuel 2" have
+    the same flags; explicit flags need not match the name at all)."""
+    from ..pairing import resolve_callee
+    n = 0
+    for m in idx.modules.values():
+        if not m.name.startswith("armi.reactor.") or ".tests" in m.name:
+            continue
+        for f in m.all_funcs():
+            mine = [p for p in f.params() + [a.arg for a in f.node.args.kwonlyargs] if p in EXACT_NAMES]
+            if not mine:
+                continue
+            for c in iter_calls(f.node):
+                rc = resolve_callee(idx, f, c)
+                if rc is None:
+                    continue
+                g, skip = rc
+                gp = g.params()[skip:]
+                theirs = [p for p in gp + [a.arg for a in g.node.args.kwonlyargs] if p in EXACT_NAMES]
+                if not theirs or g is f:
+                    continue
+                n += 1
+                t = theirs[0]
+                got = get_arg(c, gp.index(t) if t in gp else None, t)
+                r.require(got is not None and any(isinstance(x, ast.Name) and x.id == mine[0] for x in ast.walk(got)), f"{f.qualname}->{g.name}:exactness-handed-on", f, node=c,
+                          msg=f"`{norm(c)[:80]}` does not pass `{mine[0]}` on to {g.qualname}({t}=...): a caller asking for exact matches also gets the objects that merely include the flags")
+    if n < 8:
+        raise AnchorMissing("delegating queries with an exactness option")
+    f = idx.method(AO, "iterChildrenOfType")
+    tn = f.params()[1]
+    lam = [x for x in ast.walk(f.node) if isinstance(x, ast.Lambda)] + [x for x in ast.walk(f.node) if isinstance(x, ast.GeneratorExp)]
+    cmp_ = [x for l_ in lam for x in ast.walk(l_) if isinstance(x, ast.Compare)]
+    okp = len(cmp_) == 1 and len(cmp_[0].ops) == 1 and isinstance(cmp_[0].ops[0], ast.Eq) and {norm(cmp_[0].left).split(".")[-1], norm(cmp_[0].comparators[0]).split(".")[-1]} == {"getType()", tn}
+    r.require(okp, "iterChildrenOfType:selects-by-type-name", f, node=cmp_[0] if cmp_ else f.node,
+              msg=f"children are selected by `{norm(cmp_[0]) if cmp_ else '?'}`, not by `getType() == {tn}`: children of different type names that share flags are mixed up, and a child with explicit flags is not found under its name")
+
+
 def run(idx, chk):
     chk.explanation = (
         "C01: who may write Composite._children / .parent (frozen owners), pairing of parent/list/locator effects on every path of "
@@ -743,3 +785,5 @@ def run(idx, chk):
                  necessary="a copy shares no node with the original and every node of the copy has exactly one parent in the copy")
     chk.run_rule("R01.16", "arguments stand at the parameter they are named after; sibling calls forward the same pass-through parameters", lambda r: r16_pairing(idx, r), floor=1,
                  necessary="queries with every combination of options agree with a naive walk")
+    chk.run_rule("R01.17", "an exactness option is handed on by every delegating query; children of a type are selected by type name", lambda r: r17_exactness_and_type_names(idx, r), floor=9,
+                 necessary="queries agree with a naive walk of the child list under the same filter")
